@@ -270,6 +270,87 @@ def relogin_case(item):
     return part
 
 
+PIPE_BEFORE_USER = ["MKD n", "DELE f", "RMD d/e", "RNFR f", "MLST f", "CWD d", "STOR up", "RETR f", "LIST", "APPE f"]
+
+
+def run_pipelined_relogin(case, chooser):
+    """`<command>` and `USER <other>` written in one segment while the backend's path checks suspend (executor jobs):
+    the command was sent as the old user - whatever order the jobs complete in, it must not be carried out in the
+    *new* user's base directory (whose password has not even been sent)"""
+    from vf.rig import Rig
+    first, cmd = case["first"], case["cmd"]
+    spy = backends.SpyControl()
+    spy.op_job = {"exists", "is_file", "is_dir", "stat"}
+
+    def users(a, base):
+        return [a.User("alice", None, base_path="/base/A"), a.User("bob", "pw", base_path="/base/B")]
+
+    rig = Rig(chooser=chooser, backend="memory", tree=RL_TREE, users=users, spy=spy, base="/base",
+              server_kwargs={"block_size": 4})
+    try:
+        chooser.active = False
+        spy.armed = False
+        me, other = ("alice", "bob") if first == "alice" else ("bob", "alice")
+        for e in ["@connect", "USER " + me] + (["PASS pw"] if me == "bob" else []) + ["EPSV", "@data"]:
+            rig.ev(0, e)
+        spy.armed = True
+        own = "/base/A" if me == "alice" else "/base/B"
+        foreign = "/base/B" if me == "alice" else "/base/A"
+        before = {k: v for k, v in backends.snapshot_memory_all(rig.server).items() if k.startswith(foreign)}
+        s0 = rig.sessions[0]
+        chooser.active = True
+        s0.send((cmd + "\r\nUSER " + other + "\r\n").encode())
+        rig.world.settle(3)
+        if cmd.startswith(("STOR", "APPE")) and s0.data is not None:
+            rig.ev(0, "@dsend zz")
+            rig.ev(0, "@dclose")
+        chooser.active = False
+        rig.world.settle(3)
+        rig.collect()
+        problems = []
+        for op, pth in spy.calls:
+            for q in (pth or "").split(" -> "):
+                if q and (q == foreign or q.startswith(foreign + "/")):
+                    problems.append({"kind": "command-sent-before-USER-carried-out-in-the-new-users-base", "op": op, "path": q,
+                                     "sent": [cmd, "USER " + other]})
+                    break
+        after = {k: v for k, v in backends.snapshot_memory_all(rig.server).items() if k.startswith(foreign)}
+        if after != before:
+            problems.append({"kind": "new-users-tree-changed-without-its-password", "sent": [cmd, "USER " + other]})
+        if s0.data is not None and s0.data.received and cmd.startswith("RETR") and \
+                s0.data.received != RL_TREE[own[-1]]["f"]:
+            problems.append({"kind": "foreign-content-served", "data": s0.data.received.decode("latin-1")})
+        return {"problems": problems, "events": rig.world.net.n_events, "trace": report.fp(rig.world.net.trace)}
+    finally:
+        rig.close()
+
+
+def pipelined_relogin_work(item):
+    from vf.explore import explore
+    from vf.simloop import ReplayDivergence
+    case, bound = item
+    part = report.Partial()
+    kinds = ["order", "early"]
+    try:
+        for ch, res in explore(lambda c: run_pipelined_relogin(case, c), bound, kinds=kinds, max_exec=3000):
+            if ch is None:
+                part.caps.append({"pipelined-relogin": case, "cap": 3000})
+                break
+            part.evaluations += 1
+            part.traces += 1
+            part.transitions += res["events"]
+            part.states.add(res["trace"])
+            part.nontrivial.add(res["trace"])
+            part.counters[f"pipelined_relogin_exec_dev{ch.deviations}"] += 1
+            for p in res["problems"][:1]:
+                part.violation({"kind": p["kind"], "verb": case["cmd"].split(" ")[0], "first": case["first"]},
+                               {"problem": p, "case": case},
+                               replay={"pipelined_relogin": case, "choices": ch.choices, "kinds": kinds})
+    except ReplayDivergence as exc:
+        part.infra.append(f"replay divergence in pipelined relogin {case}: {exc}")
+    return part
+
+
 def late_case(item):
     """the working directory changes between a transfer verb and the arrival of its data connection: the location
     actually addressed (and every backend call) must be the one the verb named when it arrived"""
@@ -341,11 +422,15 @@ def run(tier, seed, t0):
         for v in pp.violations:
             v["replay"] = {"pipelined_cwd": v["replay"]}
     parts += pparts
+    parts += report.pmap(pipelined_relogin_work, [({"first": first, "cmd": cmd}, 1 if tier == "quick" else 2)
+                                                  for first in ("alice", "bob") for cmd in PIPE_BEFORE_USER])
     part = report.merge_all(parts)
     bounds = {"function": {"segments": SEGS, "prefixes": PREFIXES, "max_segments": 3 if tier == "quick" else 4,
                            "path_strings": nstrings, "cwds": len(cwds()), "bases": BASES},
               "wire": {"segments": WSEGS, "verbs": WVERBS, "cwd_histories": WCWD_HISTS,
                        "max_segments": "2 (3 for CWD/STOR/RETR)" if tier == "quick" else 3},
+              "pipelined_relogin": "a command and USER <other user> in one segment, path checks suspended (<= d completion-order "
+                                   "deviations): no backend call and no change in the other user's base directory",
               "pipelined_cwd": "scenario of C04 (suspending path checks, pipelined CWD, <= d deviations): every mutating "
                                "backend call names a path for which a permission lookup was made",
               "relogin": {"users": "alice (base /base/A), bob (base /base/B, password)", "state_setting": RL_SET,
@@ -364,6 +449,11 @@ def run(tier, seed, t0):
 def replay(path):
     data = json.loads(open(path).read())
     rp = data["replay"]
+    if "pipelined_relogin" in rp:
+        from vf.simloop import Chooser
+        res = run_pipelined_relogin(rp["pipelined_relogin"], Chooser(rp["choices"], rp["kinds"]))
+        print(json.dumps(res["problems"], indent=1, default=repr))
+        return 1 if res["problems"] else 0
     if "pipelined_cwd" in rp:
         from checks import c04
         from vf.simloop import Chooser
